@@ -84,13 +84,14 @@ def place(name, size, salt=0):
     if name in ("cap0", "ba-cap0"):
         b = traced("np" if name == "cap0" else "ba", 0)
         return Placed(dict(_buffer=b), b)
-    if name in ("hole", "dirtyhole", "dirtyhole2", "ba-hole", "explicit", "explicit-i8"):
+    if name in ("hole", "dirtyhole", "dirtyhole2", "ba-hole", "explicit", "explicit-i8", "explicit-al16"):
         kind = "ba" if name.startswith("ba") else "np"
         pre, post = 13, 5
-        b = traced(kind, pre + size + post, default_alignment=1)
-        a = b.allocate(pre)
-        h = b.allocate(size)
-        c = b.allocate(post)
+        # explicit-al16: the buffer aligns what IT hands out to 16 bytes; the caller's offset (13) is the caller's business
+        b = traced(kind, pre + size + post, default_alignment=16 if name == "explicit-al16" else 1)
+        a = b.allocate(pre, align=False)
+        h = b.allocate(size, align=False)
+        c = b.allocate(post, align=False)
         assert (a, h, c) == (0, pre, pre + size)
         # dirtyhole2 is the bytewise complement of dirtyhole: a write of the byte already there is still seen
         comp = (lambda d: bytes(255 - x for x in d)) if name == "dirtyhole2" else (lambda d: d)
@@ -100,10 +101,10 @@ def place(name, size, salt=0):
         if name in ("dirtyhole", "dirtyhole2", "ba-hole"):
             b.update_from_buffer(h, comp(poison(size, salt + 3)))
         nb = [(a, pre, pa), (c, post, pc)]
-        if name in ("explicit", "explicit-i8"):
+        if name in ("explicit", "explicit-i8", "explicit-al16"):
             b.log.clear()
             # explicit-i8: the offset is given as a narrow numpy integer (offset + field offsets leave its range)
-            return Placed(dict(_buffer=b, _offset=h if name == "explicit" else np.int8(h)), b, h, nb)
+            return Placed(dict(_buffer=b, _offset=np.int8(h) if name == "explicit-i8" else h), b, h, nb)
         b.free(h, size)
         b.log.clear()
         return Placed(dict(_buffer=b, _offset="packed"), b, h, nb)
